@@ -815,3 +815,10 @@ package mail
 //@   requires[C01:hist] bndold(msg) && bnddistinct(msg)
 //@   ensures[C01:nested-boundaries-differ] msg.boundary == "" ==> (differ(mw.usedMixed, mw.usedRelated) && differ(mw.usedMixed, mw.usedAlt) && differ(mw.usedRelated, mw.usedAlt))
 //@   ensures[C01:hist] msg.boundary == "" ==> (bndold(msg) && bnddistinct(msg))
+
+// C10 (continued): a body part passes through exactly one transfer decoding. mime/multipart's part reader has
+// already decoded quoted-printable (and dropped the header); 7bit and 8bit need none: in these three cases the
+// content stored in the Part is exactly what was read from the part reader.
+//@ at mail.parseEMLMultipart mail.Part.SetContent#1 before assert[C10:stored-as-read] arg1 == str(multiPartData)
+//@ at mail.parseEMLMultipart mail.Part.SetContent#2 before assert[C10:stored-as-read] arg1 == str(multiPartData)
+//@ at mail.parseEMLMultipart mail.Part.SetContent#3 before assert[C10:stored-as-read] arg1 == str(multiPartData)
